@@ -189,3 +189,8 @@ def native(tier, seed):
     from pyvc import nativerun
 
     return nativerun.run("contracts.native_containers:sweep_c16", tier, seed)
+
+
+from . import foundation  # noqa: E402
+
+foundation.register("C16")
